@@ -2,7 +2,7 @@ SPECIFICATION Spec
 CONSTANTS
   Dates <- QDates
   Refs <- QRefs
-  EnLayouts = {1, 2, 3, 4, 5, 6, 7, 8, 9}
+  EnLayouts = {1, 2, 3, 4, 5, 6, 7, 8, 9, 10}
   OtherCultures = {"fr-fr", "es-es", "pt-br", "de-de", "it-it", "nl-nl", "zh-cn"}
   Carriers = {1, 2}
 CHECK_DEADLOCK FALSE
